@@ -30,12 +30,14 @@ Definition proj (r : res (term * option N * N)) : uobs :=
 Record altobs := mkao { ao_edit : edit; ao_pos : nat; ao_junk : N; ao_att : option (list attempt); ao_obs : uobs }.
 Record case := { c_h1 : henv; c_h2 : henv; c_E : wire -> wire -> wire;
                  c_alt : option (bool * member * list N); c_alts : list altobs; c_up : option packer;
+                 (* the protected header has a member that is 'skid' up to letter case (see C02/Model.v dispatch_cv) *)
+                 c_cv : bool;
                  c_party : list N; c_att : option (list attempt); c_obs : uobs }.
 
 Definition check_E (c : case) (E : wire) (att : option (list attempt)) (obs : uobs) : bool :=
   match att with Some l => attempts_eqb l (attempts Fixed (c_party c) E) | None => true end &&
   uobs_eqb obs (proj (match c_up c with
-                      | None => unpack_pkgr Fixed (c_party c) E
+                      | None => unpack_pkgr_cv (c_cv c) Fixed (c_party c) E
                       | Some p => unpack Fixed p (c_party c) E
                       end)).
 
